@@ -687,21 +687,13 @@ def categories(prog: Program, run: Run, R: str) -> None:
     f = prog.func("odxtools.compumethods.createanycompumethod:create_any_compu_method_from_et")
     enum = prog.cls("CompuCategory")
     vals = {k: v.value for k, v in enum.enum_members.items() if isinstance(v, ast.Constant)}
+    from .common import dispatch_table
     disp: Dict[str, str] = {}
-    for x in walk_no_nested(f.node):
-        if isinstance(x, ast.If) and isinstance(x.test, ast.Compare) and isinstance(
-                x.test.ops[0], ast.Eq):
-            c = x.test.comparators[0]
-            cat = c.value if isinstance(c, ast.Constant) else None
-            if cat is None:
-                ch = attr_chain(c)
-                if ch and ch[0] == "CompuCategory":
-                    cat = vals.get(ch[1])
-            rets = [r for r in x.body if isinstance(r, ast.Return)]
-            if cat and rets and isinstance(rets[0].value, ast.Call):
-                ch = attr_chain(rets[0].value.func)
-                if ch:
-                    disp[cat] = ch[0]
+    for k, cname in dispatch_table(prog, f).items():
+        if isinstance(k, str) and k.startswith("CompuCategory."):
+            k = vals.get(k.split(".", 1)[1])
+        if isinstance(k, str):
+            disp[k] = cname
     for member, cat in vals.items():
         cls = disp.get(cat)
         if cls is None:
